@@ -123,7 +123,7 @@ def run(run):
         ctx = iter_contexts(f, n)
         fields, adapt = fields_and_adaptors(f, ctx)
         # exits from the iteration other than the guard clauses judged below
-        hard_exits = [x for b in [own] for x in T.walk(b["body"]) if x.get("k") in ("Break", "Return") and not x.get("x") and x.get("ds") != "ForLoop"]
+        hard_exits = [x for b in [own] for x in T.walk(b["body"]) if x.get("k") in ("Break", "Return") and x.get("ds") not in ("ForLoop", "WhileLoop")]
         run.check("R1", "edges|all-subs-blocks-jumps", {"subs", "blocks", "jmps"} <= fields and not adapt and not hard_exits, "the edge construction must visit every jump of every block of every function (iterates over fields %s, restricting adaptors %s, exits %d)" % (sorted(fields & {"subs", "blocks", "jmps"}), adapt, len(hard_exits)), site)
         run.check("R1", "edges|parallel-calls-kept", n["n"] == "add_edge", "two calls from f to g are two calls: edges must be added with add_edge (update_edge merges them)", F.loc(n))
         # path condition of the construction site
